@@ -215,10 +215,14 @@ fn handle_diagnostics(
         match project {
             Some(set) => {
                 for file_id in unique_files {
-                    if let Some(content) = set.get(file_id) {
-                        let id = files.add(file_id.to_string(), content.as_string());
-                        files_to_ids.insert(file_id, id);
-                    }
+                    // A diagnostic can refer to a file that is not in the project (for
+                    // example, a file that cannot be read). Still show the diagnostic.
+                    let content = match set.get(file_id) {
+                        Some(content) => content.as_string(),
+                        None => empty_source.as_str(),
+                    };
+                    let id = files.add(file_id.to_string(), content);
+                    files_to_ids.insert(file_id, id);
                 }
             }
             None => {
